@@ -422,15 +422,18 @@ impl<T: Value> Tree<T> {
             }
         }
     }
+}
 
+impl<T: Value + Send + Sync> Tree<T> {
     /// Exploit structural sharing between identical parts of the tree.
     ///
-    /// This method traverses a fully-hashed tree and replaces identical subtrees with clones of
+    /// This method traverses a tree and replaces identical subtrees with clones of
     /// the first equal subtree. The result is a tree that shares memory for common subtrees, and
     /// thus uses less memory overall.
     ///
-    /// You MUST pass a fully-hashed tree to this function, or an `Error::IntraRebaseZeroHash`
-    /// error will be returned.
+    /// Nodes which are not hashed yet are hashed on the way. Such nodes can exist even below a
+    /// hashed root: rebasing a hashed tree on an un-hashed base keeps the hashes of the rebuilt
+    /// ancestors of the un-hashed subtrees taken from the base.
     ///
     /// Arguments are:
     ///
@@ -457,10 +460,11 @@ impl<T: Value> Tree<T> {
     ) -> Result<IntraRebaseAction<Self>, Error> {
         match &**orig {
             Self::Leaf(_) | Self::PackedLeaf(_) | Self::Zero(_) => Ok(IntraRebaseAction::Noop),
-            Self::Node { hash, left, right } if current_depth > 0 => {
-                let hash = *hash.read();
+            Self::Node { left, right, .. } if current_depth > 0 => {
+                // Returns the cached hash, or computes and caches it if this node is not
+                // hashed yet.
+                let hash = orig.tree_hash();
 
-                // Tree must be fully hashed prior to intra-rebase.
                 if hash.is_zero() {
                     return Err(Error::IntraRebaseZeroHash);
                 }
@@ -506,8 +510,7 @@ impl<T: Value> Tree<T> {
                         IntraRebaseAction::Noop => orig.clone(),
                         IntraRebaseAction::Replace(new) => new.clone(),
                     };
-                    let existing_entry =
-                        known_subtrees.insert((current_depth, hash), new_subtree);
+                    let existing_entry = known_subtrees.insert((current_depth, hash), new_subtree);
 
                     // We should not add any identical node to the `known_subtrees` more than
                     // once. This indicates an error in this method's implementation or the map
@@ -522,9 +525,7 @@ impl<T: Value> Tree<T> {
             Self::Node { .. } => Err(Error::IntraRebaseZeroDepth),
         }
     }
-}
 
-impl<T: Value + Send + Sync> Tree<T> {
     pub fn tree_hash(&self) -> Hash256 {
         match self {
             Self::Leaf(Leaf { hash, value }) => {
